@@ -87,7 +87,9 @@ def gen_section(rng, max_image, allow_ignored=True):
     elif rng.random() < 0.3:
         sec["fwver"] = "*"
     if rng.random() < 0.4:
-        sec["crc"] = "%08X" % rng.getrandbits(32)
+        # the checksum as BF2 tools print it: a hexadecimal number, zero-padded or not
+        v = rng.getrandbits(rng.choice([32, 32, 28, 24, 20, 12, 4]))
+        sec["crc"] = rng.choice(["%08X", "%08X", "%X", "%x"]) % v
     sec["reboot"] = rng.random() < 0.5
     return sec
 
@@ -245,7 +247,7 @@ def truth(spec):
         if sec["reboot"]:
             tags[T_REBOOT] = b"\x01"
         if sec["crc"]:
-            tags[T_CRC] = bytes.fromhex(sec["crc"])
+            tags[T_CRC] = int(sec["crc"], 16).to_bytes(4, "big")
         if sec["select"]:
             f = bytes.fromhex(sec["select"])
             tags[T_PFID2] = f
